@@ -520,6 +520,16 @@ func ruleOpSubset(w *World, r *Report, pkg *ssa.Package) {
 	r.Fn(fnName(fn))
 	pos := w.Pos(fn.Pos())
 	ea := newErrAnalysis(w)
+	// the two sides of a pair check must come from two different ops of the list (the function's first
+	// parameter): a check that compares an op's field with the same op's field holds trivially
+	dOps := NewDeriv(w, fn)
+	selfCompared := func(a, b ssa.Value) bool {
+		if len(fn.Params) == 0 {
+			return false
+		}
+		ka, kb := opIndexSet(dOps, a, fn.Params[0]), opIndexSet(dOps, b, fn.Params[0])
+		return len(ka) == 1 && len(kb) == 1 && sameKeys(ka, kb)
+	}
 	// op constants compared in the function
 	ops := map[string]bool{}
 	isOpField := func(v ssa.Value) bool {
@@ -569,11 +579,15 @@ func ruleOpSubset(w *World, r *Report, pkg *ssa.Package) {
 					}
 				}
 				if x.Op == token.NEQ && isPathField(x.X) && isPathField(x.Y) && ea.errorOnly(tE.To()) && edgeDominatesOrSame(fE, testCommit.Block()) {
-					samePath = true
+					if !selfCompared(x.X, x.Y) {
+						samePath = true
+					}
 				}
 			case *ssa.Call:
 				if x.Call.IsInvoke() && x.Call.Method.Name() == "Equals" && ea.errorOnly(fE.To()) && edgeDominatesOrSame(tE, testCommit.Block()) {
-					sameValue = true
+					if len(x.Call.Args) == 0 || !selfCompared(x.Call.Value, x.Call.Args[0]) {
+						sameValue = true
+					}
 				}
 			}
 		}
@@ -668,6 +682,10 @@ func ruleParent(w *World, r *Report, pkg *ssa.Package) {
 				continue
 			}
 			if fromPointerOf(bo.X) && fromPointerOf(bo.Y) {
+				// ... of two different ops: comparing an op's pointer with itself relates nothing
+				if kx, ky := opIndexSet(d, bo.X, patch), opIndexSet(d, bo.Y, patch); len(kx) == 1 && len(ky) == 1 && sameKeys(kx, ky) {
+					continue
+				}
 				if bo.Op == token.EQL {
 					rels = append(rels, tE)
 				} else {
@@ -2132,4 +2150,38 @@ func ruleMergeRoot(w *World, r *Report, pkg *ssa.Package, tag string) {
 				"the root of the patch document goes through the same null→deletion conversion as a member (the top-level reader does not test the root for null and the conversion does not look at the path's length): the patch document `null` empties the target, whereas RFC 7386 makes the result `null`")
 		}
 	}
+}
+
+// opIndexSet: the constant indices k such that v is derived from list[k].
+func opIndexSet(d *Deriv, v ssa.Value, list ssa.Value) map[int64]bool {
+	out := map[int64]bool{}
+	for x := range d.Visited(v) {
+		switch y := x.(type) {
+		case *ssa.IndexAddr:
+			if strip(y.X) == list {
+				if k, ok := constInt(y.Index); ok {
+					out[k] = true
+				}
+			}
+		case *ssa.Index:
+			if strip(y.X) == list {
+				if k, ok := constInt(y.Index); ok {
+					out[k] = true
+				}
+			}
+		}
+	}
+	return out
+}
+
+func sameKeys(a, b map[int64]bool) bool {
+	if len(a) != len(b) {
+		return false
+	}
+	for k := range a {
+		if !b[k] {
+			return false
+		}
+	}
+	return true
 }
